@@ -56,6 +56,22 @@ def native_run(jobs, timeout=600):
     return json.loads(p.stdout)
 
 
+def native_run_parallel(jobs, nproc=16, timeout=1500):
+    """spread native jobs over several /venv interpreters (order of results = order of jobs)"""
+    if not jobs:
+        return []
+    nproc = max(1, min(nproc, len(jobs)))
+    chunks = [jobs[i::nproc] for i in range(nproc)]
+    from concurrent.futures import ThreadPoolExecutor
+    with ThreadPoolExecutor(nproc) as ex:
+        parts = list(ex.map(lambda ch: native_run(ch, timeout), chunks))
+    out = [None] * len(jobs)
+    for i, part in enumerate(parts):
+        for k, r in enumerate(part):
+            out[i + k * nproc] = r
+    return out
+
+
 # --------------------------------------------------------------------------
 # known findings
 # --------------------------------------------------------------------------
@@ -217,8 +233,80 @@ def cmd_check(prop, tier, seed, only=None, jobs=None):
         elif res.get("outcome") not in ("precondition-not-met",):
             canary_disagree.append({"contract": r["contract"], "case": r["case"], "canary": nm, "native": res})
 
+    # ---- tier B: bounded native enumeration (labelled bounded; never counted as discharged) -----------------
+    import random as _random
+    by_name = {c.name: c for c in contracts}
+    ok_results = [r for r in results if "crash" not in r]
+    maxlen, cap_standin, cap_xcheck = (3, 3000, 300) if tier == "quick" else (4, 40000, 3000)
+    tb_jobs, tb_meta = [], []
+    chosen = set()
+    for r in ok_results:
+        c = by_name[r["contract"]]
+        role = None
+        if c.bounded_clauses:
+            role = "stand-in"
+        elif any(g["outcome"] in ("out-of-subset", "needs-contract", "path-limit") for g in r["generation_errors"]):
+            role = "fallback"
+        if role:
+            chosen.add((r["contract"], r["case"]))
+            tb_jobs.append({"mode": "enumerate", "module": r["module"], "contract": r["contract"], "case": r["case_params"],
+                            "maxlen": maxlen, "cap": cap_standin, "seed": seed})
+            tb_meta.append((r, role))
+    rest = [r for r in ok_results if (r["contract"], r["case"]) not in chosen and by_name[r["contract"]].target]
+    _random.Random(seed).shuffle(rest)
+    for r in (rest if tier == "thorough" else rest[:24]):
+        tb_jobs.append({"mode": "enumerate", "module": r["module"], "contract": r["contract"], "case": r["case_params"],
+                        "maxlen": maxlen, "cap": cap_xcheck, "seed": seed})
+        tb_meta.append((r, "cross-check"))
+    tb_res = native_run_parallel(tb_jobs, nproc)
+    tierb = {}
+    tierb_errors = []
+    for (r, role), st in zip(tb_meta, tb_res):
+        c = by_name[r["contract"]]
+        agg = tierb.setdefault((r["contract"], role), {"contract": r["contract"], "function": r["target"], "role": role,
+                                                        "clauses": sorted(c.bounded_clauses) if role == "stand-in" else "all clauses of the contract",
+                                                        "bound": {"max_array_length": maxlen, "alphabet_sizes": 5, "scalar_candidates": 9,
+                                                                  "cap_per_case": cap_standin if role != "cross-check" else cap_xcheck},
+                                                        "cases": 0, "evaluations": 0, "rejected_by_requires": 0,
+                                                        "distinct_outcome_classes": 0, "cases_enumerated_exhaustively": 0, "failures": 0})
+        if "evaluations" not in st:
+            tierb_errors.append("tier-B runner failed for %s[%s]: %s" % (r["contract"], r["case"], st.get("reason")))
+            continue
+        agg["cases"] += 1
+        agg["evaluations"] += st["evaluations"]
+        agg["rejected_by_requires"] += st["rejected_by_requires"]
+        agg["distinct_outcome_classes"] += st["distinct_nontrivial"]
+        agg["cases_enumerated_exhaustively"] += 1 if st["exhaustive"] else 0
+        for e in st.get("errors", []):
+            tierb_errors.append("contract %s[%s] cannot be evaluated natively: %s" % (r["contract"], r["case"], str(e.get("error"))[:300]))
+        proved_here = set(r.get("proved_clauses", []))
+        sym_failed = {o["name"] for o in r["obligations"] if o["status"] != "proved"}
+        for fl in st.get("failures", []):
+            for cl in fl["clauses"]:
+                if cl in sym_failed:
+                    continue                      # already reported from the symbolic pass
+                agg["failures"] += 1
+                rec = {"property": prop, "contract": r["contract"], "module": r["module"], "target": r["target"],
+                       "case": r["case_params"], "obligation": cl, "status": "false on the real code (bounded enumeration)",
+                       "reason": "tier-B %s" % role, "detail": fl.get("exc"), "goal": None, "inputs": fl["inputs"],
+                       "lengths": None, "native": {"outcome": fl["outcome"]}, "confirmed_on_real_code": True}
+                os.makedirs(replay_dir, exist_ok=True)
+                h = hashlib.sha1(("B|%s|%s|%s" % (r["contract"], r["case"], cl)).encode()).hexdigest()[:10]
+                path = os.path.join(replay_dir, "%s-B%s.json" % (r["contract"], h))
+                with open(path, "w") as f:
+                    json.dump(rec, f, indent=1, default=str)
+                if cl in proved_here:
+                    tierb_errors.append("SOUNDNESS: %s[%s].%s was discharged symbolically but is FALSE on the real code (replay=%s)"
+                                        % (r["contract"], r["case"], cl, path))
+                elif match_finding(findings, prop, r["contract"], r["case"], cl) is not None:
+                    known_hits.append((match_finding(findings, prop, r["contract"], r["case"], cl), rec))
+                else:
+                    violations.append((rec, path))
+                break
+    # a fallback that found nothing leaves the generation failure undecided (already in `undecided`)
+
     # ---- report ---------------------------------------------------------------
-    engine_errors = []
+    engine_errors = list(tierb_errors)
     for r in crashes:
         engine_errors.append("engine crash in %s[%s]: %s" % (r["contract"], r["case"], r["crash"]))
     for r in vacuous:
@@ -287,7 +375,13 @@ def cmd_check(prop, tier, seed, only=None, jobs=None):
             "fragile_count": len(fragile),
             "engine_errors": engine_errors,
             "samples": samples + [{"canary": nm, "case": r["case"], "refuting_input": st.get("inputs")} for r, nm, st in canary_jobs[:2]],
-            "bounded_standins": entry.get("bounded", []),
+            "bounded_standins": [v for (cn, role), v in sorted(tierb.items()) if role != "cross-check"],
+            "cpython_cross_check": [v for (cn, role), v in sorted(tierb.items()) if role == "cross-check"],
+            "evaluations": sum(v["evaluations"] for v in tierb.values()),
+            "distinct_nontrivial": sum(v["distinct_outcome_classes"] for v in tierb.values()),
+            "rule": "tier B: the contract's own setup defines the input family (array lengths <= %d over 5-value alphabets incl. ties, 9 scalar candidates, "
+                    "requires-violating inputs rejected); one evaluation = one execution of the real function under /venv with every clause evaluated; "
+                    "distinct = distinct (outcome class, input lengths) pairs" % maxlen,
         },
         "assumptions": list(entry.get("assumptions", [])) + registry.GLOBAL_ASSUMPTIONS,
     }
@@ -347,7 +441,25 @@ def cmd_selfcheck():
         print(p.stderr[-2000:])
         return 3
     print("dverif selfcheck ok: z3 %s, native numpy %s" % (z3.get_version_string(), p.stdout.strip().splitlines()[-1]))
-    return 0
+    return cmd_libcheck()
+
+
+def cmd_libcheck():
+    """validate the statements about NumPy the contract library relies on against the installed NumPy (assumption
+    validation by bounded enumeration; a disagreement is a checker error, exit 3)"""
+    env = dict(os.environ, PYTHONPATH=ROOT + os.pathsep + REPO)
+    p = subprocess.run([VENV_PY, os.path.join(ROOT, "tools", "libcheck_native.py")], capture_output=True, text=True, env=env, cwd=ROOT)
+    try:
+        d = json.loads(p.stdout)
+    except ValueError:
+        print("libcheck failed to run: %s" % p.stderr[-1500:])
+        return 3
+    os.makedirs(os.path.join(ROOT, "evidence"), exist_ok=True)
+    with open(os.path.join(ROOT, "evidence", "library_validation.json"), "w") as f:
+        json.dump(d, f, indent=1)
+    for r in d["results"]:
+        print("libcheck: %6d checked, %d mismatches: %s" % (r["checked"], r["mismatches"], r["contract"][:100]))
+    return 3 if any(r["mismatches"] for r in d["results"]) else 0
 
 
 def main(argv=None):
@@ -361,9 +473,12 @@ def main(argv=None):
     r = sub.add_parser("replay")
     r.add_argument("path")
     sub.add_parser("selfcheck")
+    sub.add_parser("libcheck")
     a = ap.parse_args(argv)
     if a.cmd == "selfcheck":
         return cmd_selfcheck()
+    if a.cmd == "libcheck":
+        return cmd_libcheck()
     if a.cmd == "check":
         seed = int(os.environ.get("VERIF_SEED", "0") or 0)
         return cmd_check(a.property, a.tier, seed, a.only, a.jobs)
